@@ -105,16 +105,19 @@ ValidThing(t) ==
 RefKey(t) == <<t.fam, t.cat, t.pkg, t.op, VerCanon(t.ver), t.blocks, t.neg, t.slot, t.sub, t.sop, t.use, t.repo>>
 RefEq(x, y) == RefKey(x) = RefKey(y)
 \* reference order: lexicographic on the key, the version by the PMS order
-RefLex(cs) ==          \* first non-zero entry of a sequence of comparison results
-    LET F[i \in 1..(Len(cs) + 1)] == IF i > Len(cs) THEN 0 ELSE IF cs[i] # 0 THEN cs[i] ELSE F[i + 1] IN F[1]
+\* (TLC evaluates operator arguments lazily: "rest" is only computed after a tie)
+RefThen(c, rest) == IF c # 0 THEN c ELSE rest
 RefCmp(x, y) ==
-    RefLex(<<VSign(x.fam - y.fam), VSign(x.cat - y.cat), VSign(x.pkg - y.pkg), VSign(x.op - y.op),
-             VerCmp(x.ver, y.ver), VSign(x.blocks - y.blocks), VSign(x.neg - y.neg), VSign(x.slot - y.slot),
-             VSign(x.sub - y.sub), VSign(x.sop - y.sop), VSign(x.use - y.use), VSign(x.repo - y.repo)>>)
+    RefThen(VSign(x.fam - y.fam), RefThen(VSign(x.cat - y.cat), RefThen(VSign(x.pkg - y.pkg),
+    RefThen(VSign(x.op - y.op), RefThen(VerCmp(x.ver, y.ver), RefThen(VSign(x.blocks - y.blocks),
+    RefThen(VSign(x.neg - y.neg), RefThen(VSign(x.slot - y.slot), RefThen(VSign(x.sub - y.sub),
+    RefThen(VSign(x.sop - y.sop), RefThen(VSign(x.use - y.use), VSign(x.repo - y.repo))))))))))))
 \* hash mode "key": hash of the equality key;  "spelling": hash of the text, i.e. of the whole thing
-RefObs(mode, x, y) ==
+\* (kx, ky: the keys of x and y, so that callers can tabulate them)
+RefObsK(mode, x, y, kx, ky) ==
     LET c == RefCmp(x, y)
-        e == RefEq(x, y)
+        e == kx = ky
     IN  [eq |-> e, ne |-> ~e, lt |-> c = -1, le |-> c # 1, gt |-> c = 1, ge |-> c # -1,
          heq |-> IF mode = "key" THEN e ELSE x = y, bad |-> FALSE]
+RefObs(mode, x, y) == RefObsK(mode, x, y, RefKey(x), RefKey(y))
 =============================================================================
